@@ -30,6 +30,7 @@ BeginMarks(s, t) ==
      \cup If(\E i \in R : Stale(s.ent.po[i]) /\ Acc(s.ent.po[i]) >= P.min, "tally:stale+quorum")
      \cup If(\E i \in R : Stale(s.ent.po[i]) /\ Acc(s.ent.po[i]) < P.min /\ Acc(s.ent.po[i]) > 0, "tally:stale+some-accepts")
      \cup If(\E i \in R : Stale(s.ent.po[i]) /\ Rej(s.ent.po[i]) > Len(P.signers) - P.min, "tally:stale+rejected")
+     \cup If(\E i \in R : Stale(s.ent.po[i]) /\ s.ent.po[i].dec = <<>>, "tally:stale+no-decisions")
      \cup If(\E i \in R : FormerDecider(s, s.ent.po[i]) /\ t.ent.po[i].st = "accepted", "tally:accepted-with-former-signer-decision")
      \cup If(\E i \in R : FormerDecider(s, s.ent.po[i]) /\ t.ent.po[i].st = "rejected", "tally:rejected-with-former-signer-decision")
      \cup If(\E i \in R : FormerDecider(s, s.ent.po[i]) /\ t.ent.po[i].st = "raised", "tally:open-with-former-signer-decision")
@@ -53,6 +54,12 @@ EntTxMarks(s, ev, t, ok) ==
      If(AnyMsg(ev, LAMBDA m : m.t = "Decide" /\ ~IsSigner(s, m.signer) /\ PoExists(s, m.id) /\ PoOf(s, m.id).st = "raised"
                                /\ \E i \in DOMAIN s.ent.po : \E j \in DOMAIN s.ent.po[i].dec : s.ent.po[i].dec[j].s = m.signer),
         "decide:by-former-signer")
+  \cup If(AnyMsg(ev, LAMBDA m : m.t = "Decide" /\ PoExists(s, m.id) /\ PoOf(s, m.id).st = "raised" /\ IsSigner(s, m.signer)
+                               /\ (\E j \in DOMAIN PoOf(s, m.id).dec : PoOf(s, m.id).dec[j].s = m.signer)
+                               /\ PoOf(s, m.id).dec[Len(PoOf(s, m.id).dec)].s # m.signer), "decide:twice-after-another-signer-decided")
+  \cup If(AnyMsg(ev, LAMBDA m : m.t = "Decide" /\ "enc" \in DOMAIN m /\ PoExists(s, m.id) /\ PoOf(s, m.id).st = "raised" /\ IsSigner(s, m.signer)
+                               /\ \E j \in DOMAIN PoOf(s, m.id).dec : PoOf(s, m.id).dec[j].s = m.signer), "decide:twice-in-another-spelling-of-the-address")
+  \cup If(ok /\ AnyMsg(ev, LAMBDA m : m.t = "Decide" /\ "enc" \in DOMAIN m), "decide:first-in-upper-case-spelling")
   \cup If(ok /\ AnyMsg(ev, LAMBDA m : m.t = "Decide" /\ PoExists(s, m.id) /\ FormerDecider(s, PoOf(s, m.id))), "decide:after-signer-change")
   \cup If(AnyMsg(ev, LAMBDA m : m.t = "Decide" /\ PoExists(s, m.id) /\ PoOf(s, m.id).st = "raised"
                                /\ \E j \in DOMAIN PoOf(s, m.id).dec : PoOf(s, m.id).dec[j].s = m.signer), "decide:twice")
@@ -98,6 +105,10 @@ FeeTxMarks(s, ev, t, ok) ==
      \cup If(tx.granter # "" /\ Has(s.fgrants, FGrantKey(tx.granter, p)) /\ Spendable(s, tx.granter, d) < f, "feegrant:granter-cannot-pay")
      \cup If(tx.granter # "" /\ Has(s.fgrants, FGrantKey(tx.granter, p)) /\ reg /\ known /\ Spendable(s, p, d) + lk < f, "feegrant:payer-cannot-cover-though-granter-pays")
      \cup If(ok /\ HasMsg(ev, {"FRevoke"}), "feegrant:revoked")
+     \* an explicit fee payer (a second signer who sponsors the fee): the unlock concerns the payer, not the owner who signs first
+     \cup If(reg /\ ok /\ tx.msgs # <<>> /\ p # SignerOf(tx.msgs[1]) /\ SignerOf(tx.msgs[1]) \in DOMAIN s.ent.locked /\ s.ent.locked[SignerOf(tx.msgs[1])] > 0 /\ f > 0,
+             "payer:sponsor-pays-registry-fee-of-a-locked-holder")
+     \cup If(reg /\ ok /\ tx.msgs # <<>> /\ p # SignerOf(tx.msgs[1]) /\ unlocked, "payer:locked-holder-sponsors-anothers-registry-fee")
 
 RegTxMarksK(s, ev, t, ok, k) ==
   LET ChOk(kk, m) == ChExists(s, kk, m.id)
@@ -127,10 +138,13 @@ RegTxMarksK(s, ev, t, ok, k) ==
      \cup If(~ok /\ Len(ev.msgs) > 1 /\ ev.msgs[1].t = (IF k = "wrk" THEN "WReg" ELSE "BReg") /\ t.wrk.next = s.wrk.next /\ t.bcn.next = s.bcn.next, L("reg:registration-rolled-back"))
      \cup If(Cardinality({ j \in DOMAIN MsgsOf(ev) : IsRec(MsgsOf(ev)[j]) }) >= 2 /\ ok, L("rec:two-in-one-tx"))
      \cup If(Cardinality({ j \in DOMAIN MsgsOf(ev) : IsBuy(MsgsOf(ev)[j]) }) >= 2, L("buy:two-in-one-tx"))
+     \* from now on two registrations of the module hold records (what an export has to keep apart)
+     \cup If(ok /\ Cardinality({ i \in DOMAIN t[k].ch : t[k].ch[i].recs # <<>> }) >= 2 /\ Cardinality({ i \in DOMAIN s[k].ch : s[k].ch[i].recs # <<>> }) < 2,
+             L("rec:second-registration-with-records"))
      \cup If(~SlotsOk(s, ev.msgs, k) /\ \A j \in DOMAIN ev.msgs : (IsBuy(ev.msgs[j]) /\ ChOk(k, ev.msgs[j])) => ev.msgs[j].n <= Remaining(s[k].p, C(ev.msgs[j]).limit),
              L("buy:each-within-the-limit-sum-above-it"))
      \cup If(AnyMsg(ev, LAMBDA m : IsBuy(m) /\ ~ChOk(k, m) /\ m.n <= s[k].p.max - s[k].p.def), L("buy:unregistered-id"))
-     \cup If(ok /\ HasMsg(ev, {IF k = "wrk" THEN "WReg" ELSE "BReg"}) /\ Len(s[k].ch) >= 1 /\ s[k].ch[Len(s[k].ch)].owner # ev.msgs[1].owner, L("reg:second-owner"))
+     \cup If(ok /\ Len(s[k].ch) >= 1 /\ AnyMsg(ev, LAMBDA m : m.t = (IF k = "wrk" THEN "WReg" ELSE "BReg") /\ s[k].ch[Len(s[k].ch)].owner # m.owner), L("reg:second-owner"))
 
 RegTxMarks(s, ev, t, ok) == RegTxMarksK(s, ev, t, ok, "wrk") \cup RegTxMarksK(s, ev, t, ok, "bcn")
 
@@ -145,6 +159,8 @@ StrTxMarks(s, ev, t, ok) ==
       Settles(m) == m.t \in {"SClaim", "SRate", "SCancel"} \/ (m.t = "STopUp" /\ HasS(m) /\ X(m).dzt <= s.time)
       full == s.str.p.feeNum = s.str.p.feeDen
   IN If(ok /\ full /\ AnyMsg(ev, LAMBDA m : Settles(m) /\ HasS(m) /\ X(m).dep > 0 /\ s.time - X(m).last >= 1000), "release:fee-100-percent")
+     \* an operation that names the two parties of an existing stream in each other's role (signed by the one named as its signer)
+     \cup If(AnyMsg(ev, LAMBDA m : m.t \in {"SClaim", "STopUp", "SRate", "SCancel"} /\ ~HasS(m) /\ HasStream(s, m.sender, m.receiver)), "stream:op-with-roles-reversed")
      \cup If(ok /\ s.str.p.feeNum = 0 /\ AnyMsg(ev, LAMBDA m : Settles(m) /\ HasS(m) /\ X(m).dep > 0 /\ s.time - X(m).last >= 1000), "release:fee-zero")
      \cup If(ok /\ AnyMsg(ev, LAMBDA m : m.t = "SClaim" /\ HasS(m) /\ X(m).dep > 0 /\ s.time >= X(m).dzt), "claim:at-or-after-zero-time")
      \cup If(ok /\ AnyMsg(ev, LAMBDA m : m.t = "SClaim" /\ HasS(m) /\ X(m).dep > 0 /\ s.time < X(m).dzt /\ s.time - X(m).last < 1000), "claim:sub-second")
@@ -192,6 +208,27 @@ GhostTxMarks(s, ev, t, ok) ==
      \cup If(ok /\ AnyMsg(ev, LAMBDA m : m.t = "Raise" /\ \E g \in G : g[1] = "po" /\ g[2] = s.ent.next), "ghost:raise-reuses-rolled-back-id")
      \cup If(AnyMsg(ev, LAMBDA m : m.t \in {"SCreate", "SClaim", "STopUp", "SRate", "SCancel"} /\ <<"str", SKey(m.receiver, m.sender), "-">> \in G),
              "ghost:stream-op-on-rolled-back-pair")
+     \* a top-up / rate change / claim / cancel that ran inside a rolled-back transaction (the stream must be what it was), then another operation on it
+     \cup If(ok /\ AnyMsg(ev, LAMBDA m : m.t \in {"SClaim", "STopUp", "SRate", "SCancel"} /\ <<"str-mod", SKey(m.receiver, m.sender), "-">> \in G),
+             "ghost:stream-op-after-rolled-back-change")
+
+(* the group policy account at work (Chain.tla GExec) *)
+GroupTxMarks(s, ev, t, ok) ==
+  LET GX == { i \in DOMAIN ev.msgs : ev.msgs[i].t = "GExec" }
+      Ran(i) == RunMsgs(s, ev.msgs[i].msgs, <<>>).ok
+      Inner(i, T) == \E j \in DOMAIN ev.msgs[i].msgs : ev.msgs[i].msgs[j].t \in T
+      StreamT == {"SCreate", "SClaim", "STopUp", "SRate", "SCancel"}
+      RegT == {"WReg", "WRec", "WBuy", "BReg", "BRec", "BBuy"}
+  IN If(ok /\ \E i \in GX : Ran(i) /\ Inner(i, StreamT), "group:stream-operation-by-proposal")
+     \cup If(ok /\ \E i \in GX : Ran(i) /\ Inner(i, RegT), "group:registry-operation-by-proposal")
+     \cup If(ok /\ \E i \in GX : Ran(i) /\ Inner(i, {"Raise"}), "group:order-raised-by-proposal")
+     \cup If(ok /\ \E i \in GX : ~Ran(i) /\ Len(ev.msgs[i].msgs) > 1 /\ RunMsg(s, ev.msgs[i].msgs[1]).ok, "group:proposal-rolled-back-after-first-message")
+     \cup If(ok /\ \E i \in GX : ~Ran(i) /\ Len(ev.msgs[i].msgs) = 1, "group:proposal-message-fails-transaction-succeeds")
+     \cup If(\E i \in GX : ev.msgs[i].member \notin GroupMembers, "group:proposal-by-non-member")
+     \cup If(\E i \in GX : \E j \in DOMAIN ev.msgs[i].msgs : SignerOf(ev.msgs[i].msgs[j]) # "grp", "group:message-not-the-policy-accounts")
+     \cup If(GX = {} /\ \E j \in DOMAIN ev.msgs : SignerOf(ev.msgs[j]) = "grp", "group:direct-transaction-in-the-policy-accounts-name")
+     \cup If(ok /\ \E k \in DOMAIN t.str.s : t.str.s[k].dep > 0 /\ (k \notin DOMAIN s.str.s \/ s.str.s[k].dep = 0) /\ GX # {}, "group:policy-account-stream-funded")
+     \cup If(ok /\ AnyMsg(ev, LAMBDA m : m.t = "SClaim" /\ m.sender = "grp" /\ HasStream(s, m.receiver, m.sender) /\ StreamOf(s, m.receiver, m.sender).dep > 0), "group:claim-from-policy-account-stream")
 
 EndMarks0(s, t) ==
      If(s.ent.p # t.ent.p /\ RaisedIdx(s) # {}, "params:enterprise-changed-with-raised-order")
@@ -225,7 +262,7 @@ EndMarks(s, t) ==
 
 Marks(s, ev, t, ok) ==
   CASE ev.a = "BeginBlock" -> BeginMarks(s, t) \cup GhostBeginMarks(s, t)
-    [] ev.a = "DeliverTx" -> EntTxMarks(s, ev, t, ok) \cup FeeTxMarks(s, ev, t, ok) \cup RegTxMarks(s, ev, t, ok) \cup StrTxMarks(s, ev, t, ok) \cup GhostTxMarks(s, ev, t, ok) \cup GhostParamTxMarks(s, ev, t, ok)
+    [] ev.a = "DeliverTx" -> EntTxMarks(s, ev, t, ok) \cup FeeTxMarks(s, ev, t, ok) \cup RegTxMarks(s, ev, t, ok) \cup StrTxMarks(s, ev, t, ok) \cup GhostTxMarks(s, ev, t, ok) \cup GhostParamTxMarks(s, ev, t, ok) \cup GroupTxMarks(s, ev, t, ok)
     [] ev.a = "EndBlock" -> EndMarks(s, t)
     [] OTHER -> {}
 
@@ -252,9 +289,15 @@ AllLabels == <<
   "create:reverse-direction-exists", "stream:two-ops-in-one-tx", "stream:multi-message-tx-fails",
   "ghost:wrk:write-by-rolled-back-owner", "ghost:bcn:write-by-rolled-back-owner", "ghost:wrk:owner-write-on-reused-id", "ghost:bcn:owner-write-on-reused-id",
   "ghost:wrk:registration-reuses-rolled-back-id", "ghost:bcn:registration-reuses-rolled-back-id", "ghost:wrk:op-after-rolled-back-purchase", "ghost:bcn:op-after-rolled-back-purchase",
-  "ghost:decide-on-rolled-back-order-id", "ghost:raise-reuses-rolled-back-id", "ghost:stream-op-on-rolled-back-pair",
+  "ghost:decide-on-rolled-back-order-id", "ghost:raise-reuses-rolled-back-id", "ghost:stream-op-on-rolled-back-pair", "ghost:stream-op-after-rolled-back-change", "stream:op-with-roles-reversed",
+  "decide:twice-in-another-spelling-of-the-address", "decide:first-in-upper-case-spelling", "tally:stale+no-decisions", "decide:twice-after-another-signer-decided",
+  "wrk:rec:second-registration-with-records", "bcn:rec:second-registration-with-records",
+  "group:stream-operation-by-proposal", "group:registry-operation-by-proposal", "group:order-raised-by-proposal", "group:proposal-rolled-back-after-first-message",
+  "group:proposal-message-fails-transaction-succeeds", "group:proposal-by-non-member", "group:message-not-the-policy-accounts",
+  "group:direct-transaction-in-the-policy-accounts-name", "group:policy-account-stream-funded", "group:claim-from-policy-account-stream",
   "ghostparams:tally-outcome-would-differ", "ghostparams:registry-op", "ghostparams:stream-release", "ghostparams:decision",
   "feegrant:registry-tx-of-locked-holder-paid-by-granter", "feegrant:registry-tx-paid-by-granter", "feegrant:other-tx-paid-by-granter",
+  "payer:sponsor-pays-registry-fee-of-a-locked-holder", "payer:locked-holder-sponsors-anothers-registry-fee",
   "feegrant:no-allowance", "feegrant:granter-cannot-pay", "feegrant:payer-cannot-cover-though-granter-pays", "feegrant:revoked",
   "decide:by-removed-signer", "whitelist:by-removed-signer", "ent:accepted-from-non-signer", "wrk:buy:nested-with-limit-above-lowered-max", "bcn:buy:nested-with-limit-above-lowered-max",
   "wrk:buy:nested-over-max", "bcn:buy:nested-over-max", "topup:drained-with-zero-time-equal-to-now", "topup:zero-time-equal-to-now", "claim:zero-time-equal-to-now",
